@@ -78,8 +78,12 @@ Definition svalid (w : sworld) (o : sop) : Prop :=
     forall h t, spos ch = Some (h, t) -> hnt <= h
   | SCancel _ => True
   | SUpd r =>
-    (* historical rescan answers are truthful about the active chain at delivery
-       (no obligation on registered clients since the repair af6371e) *)
+    (* a historical rescan answer that the notifier still needs (no details
+       known yet) is truthful about the active chain at delivery; an outdated
+       answer arriving after the details were found at tip may say anything
+       (it must be ignored).  No obligation on registered clients since the
+       repair af6371e. *)
+    forall s, sset st = Some s -> ss_det s = None ->
     match r with
     | None => spos ch = None
     | Some (h, t) =>
@@ -178,6 +182,7 @@ Definition cvalid (w : cworld) (o : cop) : Prop :=
   | CReg _ _ hnt => forall h b, cpos ch = Some (h, b) -> hnt <= h
   | CCancel _ => True
   | CUpd r =>
+    forall s, cset st = Some s -> cs_det s = None ->
     match r with
     | None => cpos ch = None
     | Some (h, b) =>
